@@ -360,7 +360,12 @@ def oracle(prog, verdict, log):
         received_vals[v] = (f, i)
         recv_order.setdefault((g, f, c), []).append((gi, v))
 
+    cancelled = {}           # fiber -> index of the E event of the ev/cancel that hit it
     for idx, e in enumerate(ev):
+        if e[0] in "BE" and e[1] in cancelled:
+            fails.append(("resumed-after-cancel", "fiber %d was cancelled (event %d) while suspended, yet its code ran on: %s %d %d"
+                          % (e[1], cancelled[e[1]], e[0], e[1], e[2])))
+            del cancelled[e[1]]
         if e[0] in "LF":
             last_state = e[1]
             check_state(e[1], e[0])
@@ -453,6 +458,9 @@ def oracle(prog, verdict, log):
             if res != "ch%d" % op[1] or not immediate:
                 fails.append(("received-not-given", "fiber %d op %d: close returned %s" % (f, i, res)))
         elif k == "y" or k == "x":
+            if k == "x":
+                # the stale-task filter must discard whatever was already queued for the cancelled fiber
+                cancelled.setdefault(op[1], idx)
             if res != "nil":
                 fails.append(("received-not-given", "fiber %d op %d: %s returned %s" % (f, i, op_tok(op), res)))
         elif k == "d":
